@@ -84,7 +84,7 @@ func (g *LayoutGen) methodName() string {
 
 // surrounding declaration
 func (g *LayoutGen) surround() {
-	k := g.R.Intn(9)
+	k := g.R.Intn(11)
 	id := g.name("")
 	doc := ""
 	if g.Cfg.Comments && g.chance(0.6) {
@@ -131,6 +131,13 @@ func (g *LayoutGen) surround() {
 		} else {
 			fmt.Fprintf(&g.sb, "var W%s int\n", id)
 		}
+	case 9:
+		// a raw string (a scaffold, a code template) whose LINES look like the directives the tool strips
+		// from comments: they are content, not comments
+		fmt.Fprintf(&g.sb, "%sconst tmpl%s = `package x\n//go:generate stringer -type=T\n//go:build convergen\n// +build convergen\n//go:generate go run github.com/reedom/convergen\nend %s`%s\n", doc, id, id, trail)
+	case 10:
+		// a parenthesized type declaration that holds an ORDINARY interface next to other types
+		fmt.Fprintf(&g.sb, "%stype (\n\tGI%sa interface {\n\t\tDo(x int) string\n\t}\n\tGI%sb struct{ Z int }%s\n\tGI%sc interface{ Len() int }\n)\n", doc, id, id, trail, id)
 	}
 	g.vec = append(g.vec, fmt.Sprintf("d%d", k))
 }
@@ -233,6 +240,9 @@ func GenLayout(r *rand.Rand, cfg LayoutCfg, id, pkgRel string) *Scenario {
 		marked := convergenUsed || g.chance(0.4)
 		if marked {
 			it.Name = g.name("Conv")
+			if g.chance(0.2) {
+				it.Name = g.name("ConvergenStorage") // "Convergen" is a proper prefix of this name
+			}
 		} else {
 			it.Name = "Convergen"
 			convergenUsed = true
@@ -275,6 +285,22 @@ func GenLayout(r *rand.Rand, cfg LayoutCfg, id, pkgRel string) *Scenario {
 		} else {
 			g.vec = append(g.vec, "docless")
 		}
+		// an ordinary (unmarked) interface of the same file EMBEDDED into the converter interface: its
+		// methods are methods of the converter interface and get their functions; it stays where it is
+		embedded := ""
+		if cfg.Unmarked && sameName == "" && g.chance(0.12) {
+			base := &Iface{Name: g.name("Base"), Converter: false}
+			bm := &Method{Name: "Via" + g.methodName()}
+			a, b := g.name("A"), g.name("B")
+			fmt.Fprintf(&typeDecls, "type %s struct{ X int }\n\ntype %s struct{ X int }\n\n", a, b)
+			bm.Src.Type, bm.Dst.Type = "*"+a, "*"+b
+			base.Methods = append(base.Methods, bm)
+			fmt.Fprintf(&g.sb, "type %s interface {\n\t%s\n}\n\n", base.Name, bm.Sig())
+			s.Ifaces = append(s.Ifaces, base)
+			it.Methods = append(it.Methods, bm)
+			embedded = base.Name
+			g.vec = append(g.vec, "embeds-plain")
+		}
 		for _, d := range doc {
 			g.sb.WriteString(d + "\n")
 		}
@@ -282,7 +308,7 @@ func GenLayout(r *rand.Rand, cfg LayoutCfg, id, pkgRel string) *Scenario {
 		if cfg.MaxMethods > 3 && g.chance(0.15) {
 			nm = 1 + r.Intn(cfg.MaxMethods)
 		}
-		if cfg.EmptyIface && sameName == "" && g.chance(0.1) {
+		if cfg.EmptyIface && sameName == "" && embedded == "" && g.chance(0.1) {
 			nm = 0 // a converter interface with no methods yields no functions and disturbs nothing
 		}
 		style := "return"
@@ -292,7 +318,10 @@ func GenLayout(r *rand.Rand, cfg LayoutCfg, id, pkgRel string) *Scenario {
 			}
 		}
 		var body strings.Builder
-		oneLine := cfg.OneLine && nm == 1 && g.chance(0.35) && sameName == ""
+		if embedded != "" {
+			body.WriteString("\t" + embedded + "\n")
+		}
+		oneLine := cfg.OneLine && nm == 1 && g.chance(0.35) && sameName == "" && embedded == ""
 		for j := 0; j < nm; j++ {
 			m := &Method{Name: g.methodName()}
 			shared := sameName != "" && j == 0
